@@ -180,6 +180,5 @@ def _(c):
     c.cases(*TILE_CASES)
     c.setup(tile_image_setup)
     c.requires(INV)
-    c.module_globals(SUPPORTED_FORMATS=("png", "jpg", "npy", "fits"))
     c.loop(0, summarise="stateless")
     c.on_path(tile_image_trace)
